@@ -180,8 +180,8 @@ pub fn checks() -> Vec<Check> {
         id: "C07",
         level: "model_checking",
         stages: vec![
-            st("c07.f1", c07::f1, (0, 0), 3, "4 files (2-5 pages) x every single-bit flip of every byte of every page x [validate_crc, raw_xml, open, every read op forwards and backwards on one reader]"),
-            st("c07.f2", c07::f2, (0, 0), 3, "4 files x every page x {payload byte, checksum byte, last payload byte} damaged x all read-op histories of depth 3 (thorough 4) on one reader"),
+            st("c07.f1", c07::f1, (0, 0), 3, "5 files (2-5 pages, one with the XML starting exactly at a page boundary) x every single-bit flip of every byte of every page x [validate_crc, raw_xml, open, every read op forwards and backwards on one reader]"),
+            st("c07.f2", c07::f2, (0, 0), 3, "5 files x every page x {payload byte, checksum byte, last payload byte} damaged x all read-op histories of depth 3 (thorough 4) on one reader"),
             st("c07.poll", c07::poll, (0, 0), 3, "2 packet geometries (17 / 300 points per packet) x cloud shifted through all 255 aligned page residues x every page of the cloud damaged (payload bit, checksum bit) x {raw, simple} iterator polled 3n+8 times past its errors: every delivered item equals the same-index item of the unaltered file"),
             st("c07.big", c07::big, (0, 0), 3, "files of 255, 256, 257, 300, 513, 770 pages x every page damaged in turn (one payload bit, one checksum bit): validate_crc must fail, and must pass on the unaltered file"),
             Stage { hw_compare: true, ..st("c07.pagesize", c07::pagesize, (0, 0), 3, "every page size 64..=4200 and 8191, 8192, 8193, 65535, 65536, 65537, 2^20 (validate_crc / raw_xml take it from the header): 3-page images sealed with the independent CRC; unaltered image validates and yields its XML, 21 single-byte damages per image are all rejected; both CRC backends") },
@@ -275,8 +275,10 @@ pub fn checks() -> Vec<Check> {
             c13::normalise,
             (0, 0),
             3,
-            "22 attribute types x 18 limit shapes x {intensity, red, green, blue} x normalisation on/off; per case every stored value of the range (<=4097) or boundaries + mini-float lattice",
-        )],
+            "22 attribute types x 18 limit shapes x {intensity, red, green, blue} x {next colour channel's limits complete / without maximum / absent} x normalisation on/off; per case every stored value of the range (<=4097) or boundaries + mini-float lattice",
+        ),
+            st("c13.late_switch", c13::late_switch, (0, 0), 3, "4 types x 4 attributes x {on->off, off->on} x switch after 1 / 4 points on a 3-packet cloud: the values of the third packet equal those of an iterator configured that way up front"),
+        ],
         extra: None,
         rule: "full product; each case is an e57spec-encoded cloud holding the whole stored-value list, read by the real simple iterator with normalisation on and off; invariants (in [0,1], not NaN, monotone) on every value, equality with clamp((v-lo)/(hi-lo)) within 2.4e-7; non-trivial = both switch settings judged",
         assumptions: &[
@@ -383,7 +385,7 @@ pub fn checks() -> Vec<Check> {
             c14::bounds,
             (2, 3),
             3,
-            "48 attribute-group subsets x 4 sequence kinds; <=2 (quick) / <=3 (thorough) deviations over types, value sets, limit overrides, per-attribute value orders (all 6 orders of 3 distinct values) and hooked packet capacity {natural, 1, 2, 3}",
+            "48 attribute-group subsets x 4 sequence kinds; <=2 (quick) / <=3 (thorough) deviations over types, value sets, limit overrides, per-attribute value orders (all 6 orders of 3 distinct values) hooked packet capacity {natural, 1, 2, 3} and one refused add_point call (new extremes in every attribute, wrong type in the last value) before / amid / after the accepted points",
         )],
         extra: None,
         rule: "deviation-bounded DFS: all cases with at most d non-default choices; bounds compared numerically with an independent fold over the harness's point list; non-trivial = cloud with points",
